@@ -209,6 +209,8 @@ fn check_trace(evs: &[Ev]) -> Result<Verdict, (String, String)> {
     let mut in_episode = false; // a stop was emitted and not yet resumed
     let mut pending_step: Option<(String, u64, u32, String, u64)> = None; // (kind, origin seq, origin depth, origin thread, visits by that thread since) issued during an episode
     let mut resume_wants_progress: Option<usize> = None;
+    // which request can justify a stop: indices of the last Continue / Step* / Pause actions and breakpoint set / clear events
+    let (mut last_continue, mut last_step, mut last_pause, mut last_bp_set, mut last_bp_clear) = (None::<usize>, None::<usize>, None::<usize>, None::<usize>, None::<usize>);
     for (i, e) in evs.iter().enumerate() {
         match e {
             Ev::Enter { seq, loc, depth, thread } => {
@@ -235,6 +237,17 @@ fn check_trace(evs: &[Ev]) -> Result<Verdict, (String, String)> {
                 }
                 if *loc != cloc {
                     return Err(("stop|wrong-location".into(), format!("event {i}: stop {reason} reports location {loc}, the visited statement is {cloc}")));
+                }
+                // every stop is asked for: a step stop needs a step request that no later continue cancelled, a pause stop a
+                // pause request that no later continue / step cancelled, a breakpoint stop breakpoints that were not cleared since
+                let justified = match reason.as_str() {
+                    "Step" => last_step.is_some() && last_step > last_continue,
+                    "Pause" => last_pause.is_some() && last_pause > last_continue && last_pause > last_step,
+                    "Breakpoint" => last_bp_set.is_some() && last_bp_set > last_bp_clear,
+                    _ => true,
+                };
+                if !justified {
+                    return Err((format!("stop|not-requested|{reason}"), format!("event {i}: stop {reason} at seq {seq}, but the last request of that kind (step {last_step:?}, pause {last_pause:?}, breakpoints set {last_bp_set:?}) was cancelled by a later one (continue {last_continue:?}, clear {last_bp_clear:?})")));
                 }
                 in_episode = true;
                 v.episodes += 1;
@@ -275,6 +288,11 @@ fn check_trace(evs: &[Ev]) -> Result<Verdict, (String, String)> {
             }
             Ev::WaitEnd { .. } => {}
             Ev::Breakpoints(what) => {
+                if what.ends_with("clear") {
+                    last_bp_clear = Some(i);
+                } else {
+                    last_bp_set = Some(i);
+                }
                 let land = cur.as_ref().map(|c| c.0).unwrap_or(0);
                 v.fingerprint.push((what.clone(), land));
             }
@@ -285,6 +303,13 @@ fn check_trace(evs: &[Ev]) -> Result<Verdict, (String, String)> {
                 resume_wants_progress = None;
             }
             Ev::Action { action, outcome, from, to } => {
+                if action.starts_with("Continue") {
+                    last_continue = Some(i);
+                } else if action.starts_with("Step") {
+                    last_step = Some(i);
+                } else if action.starts_with("Pause") && outcome != "Ignored" {
+                    last_pause = Some(i);
+                }
                 let land = cur.as_ref().map(|c| c.0).unwrap_or(0);
                 v.fingerprint.push((action.split('(').next().unwrap_or(action).to_string(), land));
                 let resumes = to == "Running" && (action.starts_with("Continue") || action.starts_with("Step"));
